@@ -9,9 +9,6 @@ SHARDS = {
     "urwid/widget/overlay.py:Overlay.get_cursor_coords": (4, 3),
     "urwid/widget/overlay.py:Overlay.keypress": (4, 3),
     "urwid/widget/frame.py:Frame.render": (4, 7),
-    "urwid/widget/pile.py:Pile.render": (4, 3),
-    "urwid/widget/pile.py:Pile.get_item_rows": (4, 3),
-    "urwid/widget/pile.py:Pile.get_rows_sizes": (4, 3),
     "urwid/widget/pile.py:Pile.mouse_event": (4, 4),
     "urwid/widget/columns.py:Columns.keypress": (4, 4),
     "urwid/widget/scrollable.py:Scrollable.render": (6, 4),
